@@ -83,13 +83,13 @@ Theorem C21_metadata_only_is_intact : forall H bt ow newer mteq o n d,
 Proof. exact track_metadata_only_intact. Qed.
 
 (* oracle meaning *)
-Theorem C21_oracle_file_sound : forall bt ht mteq o n obs nr d,
-  check_C21 (CFile bt ht true false mteq o n obs nr) = true -> wf_node bt n d ->
-  (obs <> VErr <-> o = FReg d).
+Theorem C21_oracle_file_sound : forall bt ht hl mteq o n obs nr d,
+  check_C21 (CFile bt ht hl true false mteq o n obs nr) = true -> wf_node bt n d ->
+  (x_is_err obs = false <-> o = FReg d).
 Proof. exact oracle_file_fast_sound. Qed.
 
-Theorem C21_oracle_file_slow_sound : forall bt ht mteq o n obs nr d,
-  check_C21 (CFile bt ht false false mteq o n obs nr) = true -> wf_node bt n d ->
+Theorem C21_oracle_file_slow_sound : forall bt ht hl mteq o n obs nr d,
+  check_C21 (CFile bt ht hl false false mteq o n obs nr) = true -> wf_node bt n d ->
   (nr = false <-> o = FReg d).
 Proof. exact oracle_file_slow_sound. Qed.
 
@@ -103,11 +103,24 @@ Theorem C21_oracle_all_sound : forall bt ht fl es ok cnt rep cnt2,
 Proof. exact oracle_all_sound. Qed.
 
 (* the model's own outputs always satisfy the oracle *)
-Theorem C21_model_sat_oracle_file : forall H bt ht fast trust mteq o n,
+Theorem C21_model_sat_oracle_file : forall H bt ht hl fast trust mteq o n,
   repo_ok H bt -> sp_free H bt (n_content n) ->
-  check_C21 (CFile bt ht fast trust mteq o n (verify_file H (lookup_size bt) fast trust mteq o n)
-                    (needs_restore (verify_file H (lookup_size bt) fast trust mteq o n))) = true.
+  check_C21 (CFile bt ht hl fast trust mteq o n (verify_file_x H (lookup_size bt) hl fast trust mteq o n)
+                    (x_needs_restore (verify_file_x H (lookup_size bt) hl fast trust mteq o n))) = true.
+
+
 Proof. exact model_sat_oracle_file. Qed.
+
+(* the hard-link rule added to verifyFile (nil state for a reused multi-link file that needs restoring) never changes
+   the rewrite decision, and is inactive in the fail-fast mode used by VerifyFiles *)
+Theorem C21_hardlink_rule_same_decision : forall H bt hl fast trust mteq o n,
+  x_needs_restore (verify_file_x H (lookup_size bt) hl fast trust mteq o n)
+  = needs_restore (verify_file H (lookup_size bt) fast trust mteq o n).
+Proof. exact x_needs_restore_verify. Qed.
+
+Theorem C21_hardlink_rule_not_in_failfast : forall H bt hl trust mteq o n,
+  verify_file_x H (lookup_size bt) hl true trust mteq o n = XRes (verify_file H (lookup_size bt) true trust mteq o n).
+Proof. exact verify_file_x_fast. Qed.
 
 Theorem C21_model_sat_oracle_all : forall H bt ht fl es,
   repo_ok H bt -> (forall e, In e (jobs fl es) -> sp_free H bt (n_content (e_node e))) ->
@@ -138,3 +151,5 @@ Print Assumptions C21_oracle_all_sound.
 Print Assumptions C21_model_sat_oracle_file.
 Print Assumptions C21_model_sat_oracle_all.
 Print Assumptions C21_model_sat_oracle_track.
+Print Assumptions C21_hardlink_rule_same_decision.
+Print Assumptions C21_hardlink_rule_not_in_failfast.
